@@ -5,6 +5,7 @@ import (
 	"cmp"
 	"encoding/json"
 	"fmt"
+	"maps"
 	"slices"
 	"sort"
 	"strings"
@@ -266,8 +267,11 @@ func addGroup(g *nsxGroup) []change {
 
 func findGroupOnDevice(gb *nsxGroup, ma map[string]*nsxGroup) *nsxGroup {
 	bAddr := gb.Expression[0].IPAddresses
+	// Check groups in fixed order, to get deterministic result if
+	// multiple identical groups are found on device.
 GROUP:
-	for _, ga := range ma {
+	for _, id := range slices.Sorted(maps.Keys(ma)) {
+		ga := ma[id]
 		aAddr := ga.Expression[0].IPAddresses
 		// Check if group already referenced by other group.
 		if ga.needed {
